@@ -48,6 +48,10 @@ RULE += (" Added after the white-box review: "
          "interruption kinds kill / Ctrl-C / ordinary exception; final "
          "mode 'jobs' = one simulate(index) per variation, then "
          "simulate() ")
+RULE += (" Added after the second white-box review: the not-unpacked "
+         "list-valued parameter may be a numpy array; the harness accepts "
+         "deletion through pathlib, fsync before the rename and any name "
+         "for temporary files (equivalent implementations). ")
 
 ASSUMPTIONS = [
     "a crash is the death of the Python process between two file-system "
@@ -148,6 +152,9 @@ def _case(draw, tier):
                delete_partial=draw(st.booleans()), clock=clock)
     if draw(st.integers(0, 3)) == 0:
         cfg["partial_folder"] = None
+    if len(cfg["fixed"]) == 3 and draw(st.booleans()):
+        # the not-unpacked list of values is a numpy array
+        cfg["fixed_container"] = "array"
     final = draw(st.sampled_from(["same", "same", "same", "jobs", "extend",
                                   "guard_removed", "guard_added",
                                   "shrink_then_same", "guard_fixed",
@@ -284,6 +291,7 @@ def _partial_paths(cfg, env):
 
 def _durable_ids(inj, paths, tags, where):
     """ids held by the last COMPLETED save of each partial file."""
+    inj.reconcile()
     out = {}
     for v, path in paths.items():
         data = inj.durable.get(path)
@@ -344,14 +352,21 @@ def _canonical_snapshot(root):
     differ between processes (memoisation of shared strings), so complete
     pickles are compared as objects and torn ones by (torn, length class)."""
     out = {}
-    for rel, data in _snapshot(root).items():
+    for rel, data in sorted(_snapshot(root).items()):
         if ".pickle" in rel:
             try:
-                out[rel] = ("pickle", _canon(pickle.loads(data)))
+                val = ("pickle", _canon(pickle.loads(data)))
             except Exception:  # noqa  (torn file)
-                out[rel] = ("torn-pickle", len(data) == 0, len(data) == 1)
+                val = ("torn-pickle", len(data) == 0, len(data) == 1)
         else:
-            out[rel] = ("bytes", data)
+            val = ("bytes", data)
+        if "tmp" in os.path.basename(rel).lower():
+            # the NAME of a temporary file is the library's business (it may
+            # contain the process id): such files are compared as a group
+            key = os.path.join(os.path.dirname(rel), "<temporary files>")
+            out[key] = out.get(key, ()) + (val,)
+        else:
+            out[rel] = val
     return out
 
 
